@@ -96,6 +96,19 @@ impl Semaphore {
     }
 }
 
+#[cfg(fclones_verif)]
+impl Semaphore {
+    /// Wakes up all waiters without changing the count (a spurious wake-up for each of them).
+    pub fn verif_notify_all(&self) {
+        self.cvar.notify_all();
+    }
+
+    /// Returns the current count, read under the semaphore's own lock.
+    pub fn verif_count(&self) -> isize {
+        *self.lock.lock().unwrap()
+    }
+}
+
 impl Drop for SemaphoreGuard<'_> {
     fn drop(&mut self) {
         self.sem.release();
